@@ -8,6 +8,7 @@ import (
 
 	"github.com/douban/gobeansdb/cmem"
 	"github.com/douban/gobeansdb/utils"
+	"github.com/douban/gobeansdb/vhook"
 )
 
 type dataChunk struct {
@@ -75,6 +76,7 @@ func (dc *dataChunk) AppendRecordGC(wrec *WriteRecord) (offset uint32, err error
 		logger.Fatalf("write data fail, stop! err: %v", err)
 		return 0, err
 	}
+	vhook.PointI("gc.append.done", int64(dc.chunkid), int64(offset))
 	return
 }
 
@@ -109,10 +111,12 @@ func (dc *dataChunk) flush(w *DataStreamWriter, gc bool) (flushed uint32, err er
 		return 0, err
 	}
 
+	vhook.PointI("chunk.flush.beforeDetach", int64(dc.chunkid), int64(n))
 	dc.Lock()
 	tofree := dc.wbuf[:n]
 	dc.wbuf = dc.wbuf[n:]
 	dc.Unlock()
+	vhook.PointI("chunk.flush.beforeFree", int64(dc.chunkid), int64(n))
 	for _, wrec := range tofree {
 		wrec.rec.Payload.Free()
 	}
@@ -137,6 +141,7 @@ func (dc *dataChunk) GetRecordByOffsetInBuffer(offset uint32) (res *Record, err 
 	}
 	wrec := wbuf[idx]
 	if wrec.pos.Offset == offset {
+		vhook.PointI("chunk.getbuf.beforeCopy", int64(dc.chunkid), int64(offset))
 		res = wrec.rec.Copy()
 		cmem.DBRL.GetData.AddSizeAndCount(res.Payload.CArray.Cap)
 		return
@@ -159,6 +164,7 @@ func (dc *dataChunk) GetRecordByOffset(offset uint32) (res *Record, inbuffer boo
 		res.Payload.Decompress()
 		return
 	}
+	vhook.PointI("chunk.get.beforeFileRead", int64(dc.chunkid), int64(offset))
 	wrec, e := readRecordAtPath(dc.path, offset)
 	if e != nil {
 		return nil, false, e
@@ -179,6 +185,8 @@ func (dc *dataChunk) Truncate(size uint32) error {
 	if size == 0 {
 		return utils.Remove(path)
 	}
+	vhook.FS(vhook.Before, "truncate", path, int64(size), 0)
+	defer vhook.FS(vhook.After, "truncate", path, int64(size), 0)
 	return os.Truncate(path, int64(size))
 }
 
